@@ -87,13 +87,13 @@ Lemma Inv_set_ents : forall s n nd e', Inv s -> lookup (hp s) n = Some nd ->
   Inv (set_node_ents s n e').
 Proof.
   intros s n nd e' HI E Ch Sub Lz. unfold set_node_ents. rewrite E.
-  eapply Inv_update; [exact HI|exact E|reflexivity|reflexivity|left; reflexivity|auto| | |].
+  eapply Inv_update; [exact HI|exact E|reflexivity|reflexivity|reflexivity| | |].
   - intros c Hc. cbn in Hc. destruct (Ch c Hc) as [Hold|[Hex Hl]].
     + split.
-      * destruct HI as [_ _ [C1 _] _]. eapply C1. eapply child_intro; [exact E|exact Hold].
-      * intros L. destruct HI as [_ HI0 _ _]. eapply HI0; [eapply child_intro; [exact E|exact Hold]|exact L].
+      * destruct HI as [_ _ [C1 _]]. eapply C1. eapply child_intro; [exact E|exact Hold].
+      * intros L. destruct HI as [_ HI0 _]. eapply HI0; [eapply child_intro; [exact E|exact Hold]|exact L].
     + split; [exact Hex|exact Hl].
-  - intros F. right. cbn. apply Sub. exact F.
+  - intros F. cbn. apply Sub. exact F.
   - exact Lz.
 Qed.
 
@@ -112,7 +112,7 @@ Qed.
 
 Lemma Inv_gc : forall s ds, Inv s -> gc_ok s ds = true -> Inv (mkSt (hp s) (ds ++ dead s) (nxt s) (writes s)).
 Proof.
-  intros s ds [HI1 HI0 [C1 [C2 C3]] HN] G. unfold gc_ok in G. apply andb_prop in G. destruct G as [G1 G2].
+  intros s ds [HI1 HI0 [C1 [C2 C3]]] G. unfold gc_ok in G. apply andb_prop in G. destruct G as [G1 G2].
   assert (LiveOld : forall x, live (mkSt (hp s) (ds ++ dead s) (nxt s) (writes s)) x = true -> live s x = true /\ memb x ds = false).
   { intros x Lx. unfold live in *. change (dead (mkSt (hp s) (ds ++ dead s) (nxt s) (writes s))) with (ds ++ dead s) in Lx.
     unfold memb in *. rewrite existsb_app in Lx. apply negb_true_iff in Lx. apply orb_false_iff in Lx.
@@ -135,7 +135,6 @@ Proof.
     + unfold live in Lc. apply memb_In in M. rewrite M in Lc. discriminate.
   - split; [exact C1|split; [exact C2|]]. cbn. intros d Hd. apply in_app_or in Hd. destruct Hd as [Hd|Hd]; [|apply C3; exact Hd].
     apply C2. rewrite forallb_forall in G1. specialize (G1 d Hd). destruct (lookup (hp s) d); congruence.
-  - exact HN.
 Qed.
 
 (* ---------------------------------------------------------------------------------------------- memmap_ *)
@@ -168,10 +167,10 @@ Proof.
     set (ndm := mkNode KTd (ents nd) (flg nd) (pars nd) false true) in *.
     set (s1 := with_hp s (upd (hp s) n ndm)) in *.
     assert (HI1 : Inv s1).
-    { eapply Inv_update; [exact HI|exact E|cbn; congruence|reflexivity|left; reflexivity|reflexivity| |left; reflexivity|congruence].
+    { eapply Inv_update; [exact HI|exact E|cbn; congruence|reflexivity|reflexivity| |intros _; apply incl_refl|congruence].
       intros c Hc. cbn in Hc. split.
-      - destruct HI as [_ _ [C1 _] _]. eapply C1. eapply child_intro; eassumption.
-      - intros L. destruct HI as [_ HI0 _ _]. eapply HI0; [eapply child_intro; eassumption|exact L]. }
+      - destruct HI as [_ _ [C1 _]]. eapply C1. eapply child_intro; eassumption.
+      - intros L. destruct HI as [_ HI0 _]. eapply HI0; [eapply child_intro; eassumption|exact L]. }
     assert (M1 : mm_mono s s1) by (eapply mm_mono_upd; [exact E|cbn; congruence|reflexivity]).
     match type of H with context [fold_opt ?F (ents nd) _] => set (Fm := F) in * end.
     assert (Step : forall sa ra e sm rm, Fm (sa, ra) e = Some (sm, rm) -> Inv sa ->
@@ -205,25 +204,7 @@ Proof.
     destruct (fold_opt Fm (ents nd) (s1, false)) as [[s2 r2]|] eqn:Hf; [|discriminate].
     destruct (Fold _ _ _ _ _ Hf HI1) as [I2 M2].
     { unfold s1. cbn. erewrite lookup_upd_same; [|exact E]. eexists. split; [reflexivity|reflexivity]. }
-    destruct r2.
-    + inversion H. subst. split; [exact I2|eapply mm_mono_trans; eassumption].
-    + assert (En1 : lookup (hp s1) n = Some ndm) by (unfold s1; cbn; eapply lookup_upd_same; exact E).
-      destruct (M2 n ndm En1) as (nd2 & E2 & K2 & Mm2). rewrite E2 in H. inversion H. subst s' r. clear H.
-      assert (Mt : mm nd2 = true) by (apply Mm2; reflexivity).
-      (* both values of the D7 switch: with the fix the flag is left to lock_() *)
-      assert (Both : forall b : bool, Inv (with_hp s2 (upd (hp s2) n (if b then nd2 else set_flag nd2 FTrue))) /\
-                                      mm_mono s2 (with_hp s2 (upd (hp s2) n (if b then nd2 else set_flag nd2 FTrue)))).
-      { intros b. assert (Ch : forall c, In c (node_children nd2) -> lookup (hp s2) c <> None /\ (live s2 n = true -> live s2 c = true)).
-        { intros c Hc. split.
-          - destruct I2 as [_ _ [C1 _] _]. eapply C1. eapply child_intro; eassumption.
-          - intros L. destruct I2 as [_ HI0 _ _]. eapply HI0; [eapply child_intro; eassumption|exact L]. }
-        destruct b.
-        - split; [eapply Inv_update; [exact I2|exact E2|reflexivity|reflexivity|left; reflexivity|auto|exact Ch|left; exact Mt|intros _; apply incl_refl]|].
-          eapply mm_mono_upd; [exact E2|reflexivity|auto].
-        - split; [eapply Inv_update; [exact I2|exact E2|reflexivity|reflexivity|right; split; [reflexivity|exact Mt]|auto|exact Ch|left; exact Mt|intros _; apply incl_refl]|].
-          eapply mm_mono_upd; [exact E2|reflexivity|auto]. }
-      destruct (Both fixed_D7) as [A B]. split; [exact A|].
-      eapply mm_mono_trans; [exact M1|]. eapply mm_mono_trans; [exact M2|exact B].
+    destruct r2; inversion H; subst; (split; [exact I2|eapply mm_mono_trans; eassumption]).
   - match type of H with context [fold_opt ?F (node_children nd) _] => set (Fm := F) in * end.
     assert (Fold : forall l sa ra sb rb, fold_opt Fm l (sa, ra) = Some (sb, rb) -> Inv sa -> Inv sb /\ mm_mono sa sb).
     { induction l as [|c l IHl]; intros sa ra sb rb Hf Ia; cbn [fold_opt] in Hf.
@@ -260,10 +241,10 @@ Proof.
     destruct (lock_ lf (upd (hp s2) n (set_shm nd2 true)) n) as [h4|] eqn:LK; [|discriminate].
     inversion H. subst s' r. clear H.
     assert (I3 : Inv (with_hp s2 (upd (hp s2) n (set_shm nd2 true)))).
-    { eapply Inv_update; [exact I2|exact E2|reflexivity|reflexivity|left; reflexivity|auto| |intros _; right; apply incl_refl|intros _; apply incl_refl].
+    { eapply Inv_update; [exact I2|exact E2|reflexivity|reflexivity|reflexivity| |intros _; apply incl_refl|intros _; apply incl_refl].
       intros c Hc. cbn in Hc. split.
-      - destruct I2 as [_ _ [C1 _] _]. eapply C1. eapply child_intro; eassumption.
-      - intros L. destruct I2 as [_ HI0 _ _]. eapply HI0; [eapply child_intro; eassumption|exact L]. }
+      - destruct I2 as [_ _ [C1 _]]. eapply C1. eapply child_intro; eassumption.
+      - intros L. destruct I2 as [_ HI0 _]. eapply HI0; [eapply child_intro; eassumption|exact L]. }
     apply (lock_inv lf _ n h4 I3 LK).
   - destruct (fold_opt _ (node_children nd) (s, false)) as [[s2 r2]|] eqn:Hf; [|discriminate].
     assert (I2 : Inv s2) by (eapply Fold; eassumption).
@@ -359,15 +340,9 @@ Proof.
     set (nd' := mkNode (nk nd) es (if flag_is_true (flg nd) then FFalse else flg nd) [] (shm nd) (mm nd)) in *.
     assert (HC1 : closed_heap s1) by apply I1'.
     assert (I2 : Inv (fst (alloc_node s1 nd'))).
-    { apply Inv_alloc_node; [exact I1'| | |].
+    { apply Inv_alloc_node; [exact I1'| |].
       - unfold nd'. cbn. destruct (flg nd); cbn; discriminate.
-      - intros x Hx. apply C1'. exact Hx.
-      - intros K. cbn in K. cbn in L1.
-        destruct (node_children nd) as [|c1 cs] eqn:Ec.
-        + exfalso. destruct HI as [_ _ _ HN]. eapply (HN n); [congruence|].
-          eapply Hollow_lazy; [exact E|exact K|]. rewrite Ec. intros m [].
-        + change (node_children nd') with (nch es). rewrite node_children_nch in Ec. rewrite Ec in L1. cbn in L1.
-          destruct (nch es) as [|x xs]; [cbn in L1; lia|]. exists x. left. reflexivity. }
+      - intros x Hx. apply C1'. exact Hx. }
     assert (X2 : ext s1 (fst (alloc_node s1 nd'))) by (apply ext_alloc_node; exact HC1).
     assert (Ec : lookup (hp (fst (alloc_node s1 nd'))) (nxt s1) = Some nd') by (apply lookup_alloc_new; exact HC1).
     assert (Lc : live (fst (alloc_node s1 nd')) (nxt s1) = true).
@@ -398,7 +373,7 @@ Qed.
 
 (* ---------------------------------------------------------------------------------------------- one public call *)
 Lemma Inv_writes : forall s w, Inv s -> Inv (mkSt (hp s) (dead s) (nxt s) w).
-Proof. intros s w [A B C D]. split; assumption. Qed.
+Proof. intros s w [A B C]. split; assumption. Qed.
 
 Lemma resolve_value_spec : forall s v s1 r, Inv s -> resolve_value s v = Some (s1, r) ->
   Inv s1 /\ (forall x, lookup (hp s) x <> None -> lookup (hp s1) x = lookup (hp s) x) /\ (forall x, live s1 x = live s x) /\
@@ -412,7 +387,7 @@ Proof.
   - assert (Hs : s1 = fst (alloc_node s empty_td) /\ r = RNode (nxt s)) by (inversion H; split; reflexivity).
     destruct Hs as [-> ->]. clear H. pose proof (inv_closed _ HI) as HC.
     split.
-    + apply Inv_alloc_node; [exact HI|cbn; discriminate|intros c []|cbn; discriminate].
+    + apply Inv_alloc_node; [exact HI|cbn; discriminate|intros c []].
     + split; [intros x Hx; apply lookup_alloc_old; assumption|]. split; [reflexivity|].
       intros c [<-|[]]. split.
       * rewrite lookup_alloc_new; [discriminate|exact HC].
@@ -438,9 +413,9 @@ Proof. induction ms as [|m ms IH]; cbn; [reflexivity|]. f_equal. exact IH. Qed.
 
 Ltac ret HI H := inversion H; subst; exact HI.
 
-Theorem step_inv : forall fuel s o s' out, Inv s -> in_scope o -> step fuel s o = Some (s', out) -> Inv s'.
+Theorem step_inv : forall fuel s o s' out, Inv s -> step fuel s o = Some (s', out) -> Inv s'.
 Proof.
-  intros fuel s o s' out HI SC H. destruct o; cbn [step] in H.
+  intros fuel s o s' out HI H. destruct o; cbn [step] in H.
   - (* lock_ *)
     destruct (exists_live s n); cbn [negb] in H; [|ret HI H].
     destruct (lock_ fuel (hp s) n) as [h|] eqn:L; [|discriminate]. inversion H. subst. eapply lock_inv; eassumption.
@@ -518,9 +493,9 @@ Proof.
     destruct (is_td_spec _ _ T) as (nd & E & K & L). rewrite E in H.
     destruct (select_ents (ents nd) (dedup_keys ks [])) as [e|] eqn:S; [|ret HI H]. inversion H. subst.
     eapply Inv_shrink_ents; [exact HI|exact E|exact K|eapply select_ents_incl; exact S].
-  - (* exclude(inplace=True): unguarded, yet only removes entries *)
+  - (* exclude(inplace=True) *)
     destruct (is_td s n) eqn:T; cbn [negb] in H; [|ret HI H].
-    destruct (fixed_D8 && td_flag s n); [ret HI H|].
+    destruct (td_flag s n); [ret HI H|].
     destruct (is_td_spec _ _ T) as (nd & E & K & L). rewrite E in H. inversion H. subst.
     eapply Inv_shrink_ents; [exact HI|exact E|exact K|apply fold_del_incl].
   - (* append *)
@@ -545,19 +520,17 @@ Proof.
     + intros _. apply nch_incl. apply (proj1 (insert_at_incl (ents nd) i (""%string, RNode m))).
   - (* lazy_stack *)
     destruct (forallb (exists_live s) ms) eqn:A; [|ret HI H]. inversion H. subst.
-    apply Inv_alloc_node; [exact HI|cbn; discriminate| |].
-    + intros c Hc. change (node_children _) with (nch (map (fun m => (""%string, RNode m)) ms)) in Hc. rewrite nch_members in Hc.
-      rewrite forallb_forall in A. apply exists_live_spec. apply A. exact Hc.
-    + intros _. change (node_children _) with (nch (map (fun m => (""%string, RNode m)) ms)). rewrite nch_members.
-      cbn in SC. destruct ms as [|m ms]; [congruence|]. exists m. left. reflexivity.
+    apply Inv_alloc_node; [exact HI|cbn; discriminate|].
+    intros c Hc. change (node_children _) with (nch (map (fun m => (""%string, RNode m)) ms)) in Hc. rewrite nch_members in Hc.
+    rewrite forallb_forall in A. apply exists_live_spec. apply A. exact Hc.
   - (* TensorDict({}) *)
-    inversion H. subst. apply Inv_alloc_node; [exact HI|cbn; discriminate|intros c []|cbn; discriminate].
+    inversion H. subst. apply Inv_alloc_node; [exact HI|cbn; discriminate|intros c []].
   - (* memmap_ *)
     destruct (exists_live s n); cbn [negb] in H; [|ret HI H].
     destruct (pmemmap fuel s n) as [[s1 [|]]|] eqn:P; [| |discriminate].
     + inversion H. subst. eapply pmemmap_inv; eassumption.
-    + destruct (lock_ fuel (hp s1) n) as [h|] eqn:L; [|discriminate]. inversion H. subst.
-      eapply lock_inv; [|exact L]. eapply pmemmap_inv; eassumption.
+    + destruct (plock fuel (hp s1) n None) as [h|] eqn:L; [|discriminate]. inversion H. subst.
+      eapply plock_inv; [|exact L]. eapply pmemmap_inv; eassumption.
   - (* share_memory_ *)
     destruct (exists_live s n); cbn [negb] in H; [|ret HI H].
     destruct (pshare fuel fuel s n) as [[s1 [|]]|] eqn:P; [| |discriminate]; inversion H; subst; eapply pshare_inv; eassumption.
@@ -583,14 +556,13 @@ Proof.
   - intros p F. unfold flag_true in F. cbn in F. discriminate.
   - intros p c Hc. destruct Hc.
   - split; [intros p c []|split; [intros n Hn; cbn in Hn; congruence|intros d []]].
-  - intros n Hn. cbn in Hn. congruence.
 Qed.
 
-Theorem run_inv : forall ff ops s s' outs, Inv s -> Forall in_scope ops -> run ff s ops = Some (s', outs) -> Inv s'.
+Theorem run_inv : forall ff ops s s' outs, Inv s -> run ff s ops = Some (s', outs) -> Inv s'.
 Proof.
-  intros ff. induction ops as [|o ops IH]; intros s s' outs HI SC H; cbn in H.
+  intros ff. induction ops as [|o ops IH]; intros s s' outs HI H; cbn in H.
   - inversion H. subst. exact HI.
   - destruct (step (ff s) s o) as [[s1 out]|] eqn:St; [|discriminate].
     destruct (run ff s1 ops) as [[s2 outs2]|] eqn:R; [|discriminate]. inversion H. subst.
-    inversion SC. subst. eapply IH; [|eassumption|exact R]. eapply step_inv; eassumption.
+    eapply IH; [|exact R]. eapply step_inv; eassumption.
 Qed.
